@@ -12,9 +12,11 @@
     negative share quantity enters a validator total through them;
   * `clamp_only_below_one_share`: the clamped subtraction departs from exact subtraction only for an overdraft below
     one share.
-  NOT proved — and false for the asset-share side (known findings D13 `valshares_dust`, `negative_dust`): the all-history
-  sum invariants. The delegator-side invariant (Σ delegations = validator total) has no known violation on this tree
-  apart from D16 (`validator_info_removed`); it is monitored (`delshares_sum`) and its proof is sketched in DESIGN §10.
+  * the DELEGATOR side as an invariant of every history (`delegator_ledger_all_histories`, proof in
+    AllianceProofs/ShareLedger + LedgerHistory): Σ delegations(v,d) = validator v's delegator-share total of d, positions
+    non-negative, outside x/staking's removal of a validator record (D16).
+  NOT proved — and false (known findings D13 `valshares_dust`, `negative_dust`): the asset side
+  (Σ validators' asset shares = asset share total).
 -/
 import AllianceProofs
 namespace Alliance
@@ -125,6 +127,35 @@ theorem clamp_only_below_one_share (have_ want : Dec) :
   split
   · next h => right; exact ⟨rfl, by unfold Dec at *; omega, h.2⟩
   · left; rfl
+
+/-! ## the delegator side as an invariant of every history -/
+
+/-- what the ledger predicate says: for every validator and denom the delegations' shares sum to the per-denom total of
+    the validator's recorded delegator shares (0 for a validator without record), no stored position is negative -/
+theorem ledger_meaning (w : World) (h : L0 w) :
+    (∀ v d, AL.sumBy (shareOf v d) w.dels = tdsL w.vals v d) ∧ (∀ p ∈ w.dels, 0 ≤ p.2.shares) :=
+  ⟨fun v d => by have := h.sums v d; omega, h.nonneg⟩
+
+/-- every operation except x/staking's removal of a validator record (D16), when it succeeds, keeps the ledger -/
+theorem delegator_ledger_step (op : Op) (w w' : World) (h : step op w = (.ok (), w')) (hl : L0 w) (hak : AssetsKeyed w)
+    (hop : LedgerScope op) : L0 w' := step_ledger op w w' h hl hak hop
+
+/-- the four user operations keep it whether they succeed or fail -/
+theorem user_ops_keep_ledger (op : Op) (w : World) (hl : L0 w)
+    (hop : match op with | .delegate .. | .undelegate .. | .redelegate .. | .claim .. => True | _ => False) :
+    L0 (step op w).2 := user_step_keeps_ledger op w hl hop
+
+/-- C03 (delegator side) over all histories: operations with arbitrary non-negative distribution responses, failed
+    transactions and environment steps; scope: the custody scope of C01 plus `LedgerScope` -/
+theorem delegator_ledger_all_histories (d : Denom) (w w' : World) (hc : Core d w) (hl : L0 w) (hr : ReachL d w w') : L0 w' :=
+  reach_ledger d w w' hc hl hr
+
+/-- non-vacuity: the empty stores satisfy the ledger, and a concrete deposit is a history from them -/
+example : L0 (default : World) := by
+  refine ⟨List.Pairwise.nil, ?_, ?_, ?_, fun v d => rfl⟩
+  · intro p hp; exact absurd hp (List.not_mem_nil)
+  · intro p hp; exact absurd hp (List.not_mem_nil)
+  · intro v i h; cases h
 
 /-- non-vacuity of `reset_on_empty`: a validator holding 5 shares of an emptied asset -/
 example :
